@@ -37,6 +37,8 @@ type Prop struct {
 	MaxWorkers int
 	// ChunkSize override (cases per worker process).
 	Chunk func(tier string) int
+	// CrashIsViolation: the death of a worker by running out of memory is a violation too (C20).
+	CrashIsViolation bool
 }
 
 var props = map[string]*Prop{}
@@ -428,7 +430,7 @@ func orchestrate(env *Env, self string, only int) int {
 			workerFailed = true
 			continue
 		}
-		if cr.Kind == "oom" || cr.Kind == "watchdog" {
+		if (cr.Kind == "oom" && !p.CrashIsViolation) || cr.Kind == "watchdog" {
 			total.Inconclusive["worker-"+cr.Kind]++
 			fmt.Printf("NOTE property=%s case=%d worker lost (%s): inconclusive\n", p.ID, cr.Case, cr.Kind)
 			continue
